@@ -236,9 +236,7 @@ theorem rt_enum (m : Mode) (decl : EnumDecl) (i : Nat) (hwf : decl.wf = true) (h
       simp [toEnum, EVal.toJson, hmx, hval, Mode.noExplicitCast, Mode.noDataLoss]
   | str s =>
     cases hmx : decl.mixin <;> simp [hmx] at hty' <;> cases m <;>
-      (simp only [toEnum, EVal.toJson, hmx, Cfg.fixed, Mode.noExplicitCast, Mode.noDataLoss, Bool.false_eq_true, ↓reduceIte]
-       try cases findIdx? (fun m => m.1 == s) decl.members <;> simp [hval]
-       try simp [hval])
+      simp [toEnum, EVal.toJson, hmx, hval, Cfg.fixed, Mode.noExplicitCast, Mode.noDataLoss]
 
 theorem lit0 : "0".toList = natStr 0 := by decide
 theorem lit1 : "1".toList = natStr 1 := by decide
